@@ -48,6 +48,12 @@ def _ann_is_set(ann):
   return (dotted(ann) or "").split(".")[-1] in _SET_ANN
 
 
+def _is_dict_view(e):
+  """`X.keys()` / `X.items()` without arguments (a set-like dict view)."""
+  return isinstance(e, ast.Call) and isinstance(e.func, ast.Attribute) and \
+      e.func.attr in ("keys", "items") and not e.args and not e.keywords
+
+
 class _SetInference:
   """Decides `expr is definitely a set` inside one module (never guesses yes).
 
@@ -182,6 +188,10 @@ class _SetInference:
         return True
       return self._call_returns_set(expr, at)
     if isinstance(expr, ast.BinOp) and isinstance(expr.op, _SET_OPS):
+      # `d.keys() - x`, `x & d.items()`, ...: the set algebra of dict views
+      # builds a plain set whatever the other operand is (any iterable)
+      if _is_dict_view(expr.left) or _is_dict_view(expr.right):
+        return True
       return self.is_set(expr.left, at) or self.is_set(expr.right, at)
     if isinstance(expr, ast.IfExp):
       return self.is_set(expr.body, at) and self.is_set(expr.orelse, at)
@@ -195,28 +205,92 @@ class _SetInference:
       return self._attr_is_set(expr, at)
     return False
 
-  def _call_returns_set(self, call, at):
+  def resolve_callee(self, call, at):
+    """(def, number of implicit leading parameters) for a call that resolves
+    to a function of this module: a module-level function called by a name
+    that no enclosing scope rebinds, or `self.m(..)` inside a method whose
+    first parameter is the receiver (class + same-module bases).  Else None."""
     f = call.func
     if isinstance(f, ast.Name) and f.id in self.mod.functions:
-      # only if the name is not rebound locally
       for scope in self._scope_chain(at)[:-1]:
         if f.id in self._bindings(scope):
-          return False
-      return _ann_is_set(self.mod.functions[f.id].returns)
+          return None
+      return self.mod.functions[f.id], 0
     if isinstance(f, ast.Attribute) and isinstance(f.value, ast.Name):
       fn = self.mod.enclosing_function(at)
       while isinstance(fn, ast.Lambda) or (
           fn is not None and not isinstance(self.mod.parent.get(fn), ast.ClassDef)):
         fn = self.mod.enclosing_function(fn)
       if fn is None or not fn.args.args or fn.args.args[0].arg != f.value.id:
-        return False
+        return None
       cls = self._enclosing_class(fn)
       for c in self._class_and_bases(cls):
         for st in c.body:
           if isinstance(st, _FUNC) and st.name == f.attr:
-            return _ann_is_set(st.returns) and not any(
-                (dotted(d) or "").endswith("property") for d in st.decorator_list)
-    return False
+            decs = {(dotted(d) or "").split(".")[-1] for d in st.decorator_list}
+            if "staticmethod" in decs:
+              return st, 0
+            if decs - {"classmethod", "abstractmethod", "override"}:
+              return None  # property / cached / wrapped: not a plain call
+            return st, 1
+        # a class-level `m = ...` shadows a base's method
+        for st in c.body:
+          if isinstance(st, ast.Assign) and any(
+              isinstance(t, ast.Name) and t.id == f.attr for t in st.targets):
+            return None
+    return None
+
+  def _call_returns_set(self, call, at):
+    res = self.resolve_callee(call, at)
+    if res is None:
+      return False
+    fn = res[0]
+    if _ann_is_set(fn.returns):
+      return True
+    return self.returns_set(fn)
+
+  def returns_set(self, fn):
+    """Some `return E` of `fn` returns a definite set (so a caller can hold a
+    set): inferred from the body when the annotation does not say so."""
+    key = ("returns", fn)
+    if key in self._attr_cache:
+      return self._attr_cache[key]
+    if key in self._active:
+      return False
+    # evaluated without the optimistic in-progress assumptions of the caller
+    # (the result is cached, so it must not depend on them); recursion through
+    # the function itself counts as "not a set" (least fixpoint)
+    saved = self._active
+    self._active = {k for k in saved if k[0] == "returns"} | {key}
+    try:
+      res = False
+      nodes = list(walk_no_nested(fn))
+      if not any(isinstance(n, (ast.Yield, ast.YieldFrom)) for n in nodes):
+        for n in nodes:
+          if isinstance(n, ast.Return) and n.value is not None and \
+              self.is_set(n.value, n.value):
+            res = True
+            break
+    finally:
+      self._active = saved
+    self._attr_cache[key] = res
+    return res
+
+  def param_of_arg(self, call, callee, skip, arg_node):
+    """Name of the callee parameter that receives `arg_node` (None if it goes
+    to *args/**kwargs or the mapping is not syntactically evident)."""
+    a = callee.args
+    pos = [p.arg for p in a.posonlyargs + a.args][skip:]
+    for i, x in enumerate(call.args):
+      if isinstance(x, ast.Starred):
+        break
+      if x is arg_node:
+        return pos[i] if i < len(pos) else None
+    names = {p.arg for p in a.args + a.kwonlyargs}
+    for k in call.keywords:
+      if k.value is arg_node and k.arg in names:
+        return k.arg
+    return None
 
   def _name_is_set(self, name, at):
     for scope in self._scope_chain(at):
@@ -664,6 +738,55 @@ def _qualname(mod, node):
   return ".".join(reversed(parts)) or "<module>"
 
 
+def _param_walks(mod, inf, callee, param, depth=0, seen=None):
+  """Order-observing walks of parameter `param` inside `callee` (a function of
+  `mod`): [(kind, line)], following the parameter into further functions of
+  the module.  Only uses that the parameter's entry value reaches (reaching
+  definitions) count; provably order-insensitive uses are dropped."""
+  seen = seen if seen is not None else set()
+  if (callee, param) in seen or depth > 3:
+    return []
+  seen.add((callee, param))
+  rd = inf._rd(callee)
+
+  def is_param(e, at):
+    if not (isinstance(e, ast.Name) and e.id == param):
+      return False
+    if inf._shadowed(param, at):
+      return False
+    if mod.enclosing_function(at) is not callee:
+      # inside a nested def/lambda: a closure read; count it when the
+      # parameter is never rebound in the callee
+      return len(inf._bindings(callee).get(param, [])) == 1
+    st = mod.enclosing_stmt(at)
+    state = rd.before.get(st)
+    if state is None:
+      return False
+    defs = {d for (n, d) in state if n == param}
+    return callee in defs
+
+  out = []
+  for node in ast.walk(callee):
+    if node is callee:
+      continue
+    for kind, expr in _consumers(node):
+      if is_param(expr, node) and not inf.is_set(expr, node) and \
+          not _auto_insensitive(mod, inf, node, kind, expr):
+        # (a parameter that is a set by its own annotation is a site of its own)
+        out.append((kind, getattr(node, "lineno", callee.lineno)))
+    if isinstance(node, ast.Call):
+      res = inf.resolve_callee(node, node)
+      if res is None:
+        continue
+      for a in list(node.args) + [k.value for k in node.keywords]:
+        if is_param(a, node):
+          p2 = inf.param_of_arg(node, res[0], res[1], a)
+          if p2 is not None:
+            for kind, line in _param_walks(mod, inf, res[0], p2, depth + 1, seen):
+              out.append((f"{res[0].name}({p2})->{kind}", line))
+  return out
+
+
 def _scan_module(ctx, rel):
   mod = get_module(ctx, rel)
   inf = _SetInference(mod)
@@ -676,6 +799,24 @@ def _scan_module(ctx, rel):
       sites.append({
           "qual": _qualname(mod, node), "expr": src(expr), "kind": kind,
           "line": getattr(node, "lineno", 0), "auto": auto})
+    # a set handed to a function of the same module that walks its parameter
+    if isinstance(node, ast.Call):
+      res = inf.resolve_callee(node, node)
+      if res is None:
+        continue
+      callee, skip = res
+      for a in list(node.args) + [k.value for k in node.keywords]:
+        if isinstance(a, ast.Starred) or not inf.is_set(a, node):
+          continue
+        param = inf.param_of_arg(node, callee, skip, a)
+        if param is None:
+          continue
+        walks = _param_walks(mod, inf, callee, param)
+        if walks:
+          sites.append({
+              "qual": _qualname(mod, node), "expr": src(a),
+              "kind": f"call:{callee.name}({param})->{walks[0][0]}",
+              "line": getattr(node, "lineno", 0), "auto": None})
   sites.sort(key=lambda s: (s["line"], s["kind"], s["expr"]))
   return sites
 
@@ -715,6 +856,10 @@ _SAFE_OUTPUT_PATH = {
      "set(enter_fns) | set(visit_fns) | set(leave_fns)"): (
          ("for",), "accumulates ancestor names into a set / sets a flag; the "
          "raise is an internal assertion about the visitor class"),
+    ("pytype/pytd/base_visitor.py", "_GetAncestorMap",
+     "_GetChildTypes(node_classes, info.cls)"): (
+         ("for",), "per child type: a set update of the outgoing edges or an "
+         "internal assertion; the ancestor map is a dict of sets"),
     ("pytype/pytd/booleq.py", "simplify_exprs", "expr_set"): (
         (".pop()",), "reached only with exactly one element (len > 1 returned "
         "in the previous arm, empty falls to the next)"),
@@ -740,10 +885,21 @@ _SAFE_OUTPUT_PATH = {
          ("listcomp",), "the list is sorted by len and only checked as a "
          "superset chain; equal-length distinct sets fail in either order, so "
          "the boolean result is order-free"),
+    ("pytype/pytd/visitors.py", "LookupExternalTypes.VisitTypeDeclUnit",
+     "new_getattrs"): (
+         ("call:_DiscardExistingNames(potential_members)->for",),
+         "the filtered list keeps at most one element: more than one "
+         "__getattr__ raises KeyError two statements later"),
     ("pytype/pytd/visitors.py", "VerifyVisitor.LeaveTypeDeclUnit",
      "self._all_templates"): (
          ("for",), "verification only: raises AssertionError on a broken AST "
          "(internal crash, not output)"),
+    ("pytype/tracer_vm.py", "CallTracer.pytd_functions_for_call_traces",
+     "self._calls"): (
+         ("call:_call_traces_to_function(call_traces)->for",),
+         "call-trace (~partial) functions only feed the structural solver's "
+         "conjunction and are dropped by convert_structural.extract_local "
+         "before output"),
     ("pytype/tracer_vm.py", "CallTracer.pytd_classes_for_call_traces",
      "self._method_calls"): (
          ("for",), "call-trace (~partial) classes only feed the structural "
@@ -840,6 +996,11 @@ _SAFE_WHOLE_PACKAGE = {
      "self.conditions"): (("for",), "debug repr"),
     ("pytype/rewrite/flow/state.py", "BlockState.__repr__",
      "self._locals_with_block_condition"): (("f-string",), "debug repr"),
+    ("pytype/tools/analyze_project/parse_args.py", "Parser.parse_args",
+     "file_config_names"): (
+         ("call:create_initial_args(keys)->dictcomp",
+          "call:clean_args(keys)->for"),
+         "argparse.Namespace attributes set / deleted by name"),
     ("pytype/tools/analyze_project/parse_args.py", "Parser.postprocess",
      "names"): (("dictcomp",), "option map read by key"),
     ("pytype/tools/analyze_project/pytype_runner.py", "PytypeRunner.__init__",
@@ -892,9 +1053,19 @@ EXPLANATION = (
     "msgpack encoder is deterministic, the gzip header is constant and the "
     "dependency lists are sorted; R4.5 the printer sorts import lines and "
     "TypeVar definitions; R4.6 every walk over a value that is definitely a "
-    "set (intra-procedural inference) by an order-observing consumer is "
+    "set by an order-observing consumer is "
     "either provably order-insensitive or in a frozen, hand-triaged table "
-    "(quick: output-path modules; thorough: whole package); R4.8 every "
+    "(quick: output-path modules; thorough: whole package).  The set "
+    "inference is intra-procedural plus two module-local steps: the result "
+    "of `d.keys()/d.items() <-|&^> x` is a set (dict-view set algebra, "
+    "whatever x is); a call that resolves to a function of the same module "
+    "(module-level name, `self.m()` in the class or its same-module bases) "
+    "yields a set when the return annotation says so or SOME `return E` of "
+    "its body returns a definite set (least fixpoint over recursion); and a "
+    "definite set passed as an argument to such a function is a walk when "
+    "the receiving parameter's entry value reaches (reaching definitions) an "
+    "order-observing consumer there, also through further module-local "
+    "calls (depth 3); R4.8 every "
     "*process-lifetime state holder* in the analysis modules (all of pytype/ "
     "except tests, tools/, metrics.py, debug.py) is in a frozen, hand-triaged "
     "table keyed by (file, qualified name) with the kinds of change it was "
@@ -914,8 +1085,11 @@ EXPLANATION = (
     "state kept in mutable default arguments, function attributes, "
     "functools caches, objects reachable from a reused Loader, or containers "
     "changed only through another module (`other.X[k] = v`), "
-    "sets that reach a consumer through a call, an attribute of another "
-    "object or an unannotated parameter, iteration over dicts keyed by "
+    "sets that reach a consumer through a call into ANOTHER module, a "
+    "method called on anything but the receiver, a callback, *args/**kwargs, "
+    "a container element, an attribute of another "
+    "object or an unannotated parameter of an uncalled/externally called "
+    "function, iteration over dicts keyed by "
     "id()-hashed objects, tie order of sorted() under a non-injective key.")
 ASSUMPTIONS = [
     "str hashes are randomised per process (PYTHONHASHSEED) and object "
@@ -925,6 +1099,12 @@ ASSUMPTIONS = [
     "msgspec's order='deterministic' sorts sets and dict keys on encoding",
     "a name bound only to set-valued expressions / annotated as a set is a "
     "set; attributes assigned from outside their class are not tracked",
+    "`X.keys()` / `X.items()` called without arguments and combined with "
+    "- & | ^ is a dict view (its set algebra returns a plain set); a function "
+    "that returns a set on some path can hand a set to its caller (paths are "
+    "not checked for feasibility); methods are not monkey-patched, and a "
+    "subclass in another module does not override the `self.m` that a "
+    "module-local call resolves to",
     "test files, test_data and typeshed are outside the scope",
     "R4.8: module and class objects (and what their scope binds) live for "
     "the whole process; code at module/class scope runs once at import; "
@@ -1475,13 +1655,13 @@ def r4_5(ctx):
 
 # -- R4.6 ------------------------------------------------------------------------
 
-@rule("R4.6", "C04", floor=18)
+@rule("R4.6", "C04", floor=21)
 def r4_6(ctx):
   """Set iteration feeding ordered data: output-path modules."""
   _run_set_rule(ctx, _scope_files(ctx, whole=False), _SAFE_OUTPUT_PATH)
 
 
-@rule("R4.6w", "C04", floor=43, tier="thorough")
+@rule("R4.6w", "C04", floor=45, tier="thorough")
 def r4_6_whole(ctx):
   """Set iteration feeding ordered data: the rest of the package."""
   quick = set(_scope_files(ctx, whole=False))
@@ -1897,6 +2077,11 @@ _NO_BUILTINS_CACHE = [
      "  return BuiltinsAndTyping().load(options)\n"),
 ]
 
+_FORMSET_LOOP = ("      for compat, name in pep484.get_compat_items():\n"
+                 "        # name can replace compat.\n"
+                 "        if compat in type_list and name in type_list:\n"
+                 "          del type_list[compat]\n")
+
 VARIANTS = [
     # -- R4.1 ---------------------------------------------------------------
     {"name": "drop-CanonicalOrdering", "rule": "R4.1", "file": IO, "expect": "fire",
@@ -2065,6 +2250,50 @@ VARIANTS = [
     {"name": "twin-set-to-set-comprehension", "rule": "R4.6", "file": IO, "expect": "silent",
      "old": "  names = {e.name for e in errorlog}\n",
      "new": "  names = {e.name for e in errorlog}\n  lowered = {n.lower() for n in names}\n"},
+    # -- R4.6 across a call boundary / dict-view set algebra
+    {"name": "seeded-C04-r2m2", "rule": "R4.6", "patch": "seeded/C04-r2m2/patch.diff",
+     "expect": "fire"},
+    {"name": "union-members-frozen-into-a-set-before-build", "rule": "R4.6",
+     "file": PRINTER, "expect": "fire",
+     "old": "    type_list = self._FormSetTypeList(node)\n    return self._BuildUnion(type_list)",
+     "new": "    type_list = frozenset(self._FormSetTypeList(node))\n"
+            "    return self._BuildUnion(type_list)"},
+    {"name": "namedtuple-methods-through-keys-difference", "rule": "R4.6",
+     "file": "pytype/output.py", "expect": "fire",
+     "old": "k: m for k, m in methods.items() if k not in v.generated_members",
+     "new": "k: methods[k] for k in methods.keys() - v.generated_members"},
+    {"name": "formset-returns-keys-intersection-via-local", "rule": "R4.6",
+     "file": PRINTER, "expect": "fire", "old": _FORMSET_LOOP,
+     "new": "      drop = [c for c, n in pep484.get_compat_items()\n"
+            "              if c in type_list and n in type_list]\n"
+            "      kept = type_list.keys() ^ drop\n"
+            "      return kept\n"},
+    {"name": "twin-formset-filters-into-a-dict", "rule": "R4.6", "file": PRINTER,
+     "expect": "silent", "old": _FORMSET_LOOP,
+     "new": "      redundant = {c for c, n in pep484.get_compat_items()\n"
+            "                   if c in type_list and n in type_list}\n"
+            "      return {t: None for t in type_list if t not in redundant}\n"},
+    {"name": "twin-set-handed-to-a-membership-only-helper", "rule": "R4.6",
+     "expect": "silent", "edits": [
+         (PRINTER, _FORMSET_LOOP,
+          "      redundant = {c for c, n in pep484.get_compat_items()\n"
+          "                   if c in type_list and n in type_list}\n"
+          "      self._DropNames(type_list, redundant)\n"),
+         (PRINTER, "  def _BuildUnion(self, type_list):\n",
+          "  def _DropNames(self, type_list, names):\n"
+          "    for t in list(type_list):\n"
+          "      if t in names:\n"
+          "        del type_list[t]\n\n"
+          "  def _BuildUnion(self, type_list):\n")]},
+    {"name": "twin-union-members-listed-before-build", "rule": "R4.6", "file": PRINTER,
+     "expect": "silent",
+     "old": "    type_list = self._FormSetTypeList(node)\n    return self._BuildUnion(type_list)",
+     "new": "    type_list = list(self._FormSetTypeList(node))\n"
+            "    return self._BuildUnion(type_list)"},
+    {"name": "twin-keys-difference-sorted", "rule": "R4.6", "file": "pytype/output.py",
+     "expect": "silent",
+     "old": "k: m for k, m in methods.items() if k not in v.generated_members",
+     "new": "k: methods[k] for k in sorted(methods.keys() - v.generated_members)"},
     # -- R4.8 (the `twin-` variants also drop the builtins cache that the rule
     # reports on the reference tree, so that they are silent there)
     {"name": "seeded-C04-m2", "rule": "R4.8", "patch": "seeded/C04-m2/patch.diff",
